@@ -207,4 +207,42 @@ theorem deserialize_of_visit_incomplete (dec : JVal → Option α) (kvs : List (
         | none => simp only [deserialize, hvl]
         | some data => exact absurd hvl (h nc nr data)
 
+/-- a permutation of a two-element list -/
+theorem perm_two {β : Type} {y z p q : β} (h : [y, z].Perm [p, q]) : (y = p ∧ z = q) ∨ (y = q ∧ z = p) := by
+  have hy : y ∈ [p, q] := h.subset (by simp)
+  simp only [List.mem_cons, List.not_mem_nil, or_false] at hy
+  rcases hy with rfl | rfl
+  · have := h.cons_inv
+    exact .inl ⟨rfl, by simpa using this⟩
+  · have h2 : [y, z].Perm [y, p] := h.trans (List.Perm.swap _ _ _)
+    have := h2.cons_inv
+    exact .inr ⟨rfl, by simpa using this⟩
+
+/-- a permutation of a three-element list is one of the six orderings -/
+theorem perm_three {β : Type} {a b c : β} (kvs : List β) (h : kvs.Perm [a, b, c]) :
+    kvs = [a, b, c] ∨ kvs = [a, c, b] ∨ kvs = [b, a, c] ∨ kvs = [b, c, a] ∨ kvs = [c, a, b] ∨ kvs = [c, b, a] := by
+  have hl := h.length_eq
+  match kvs, hl, h with
+  | [x, y, z], _, h =>
+    have hx : x ∈ [a, b, c] := h.subset (by simp)
+    simp only [List.mem_cons, List.not_mem_nil, or_false] at hx
+    rcases hx with rfl | rfl | rfl
+    · rcases perm_two h.cons_inv with ⟨rfl, rfl⟩ | ⟨rfl, rfl⟩ <;> simp
+    · have h2 : [x, y, z].Perm [x, a, c] := h.trans (List.Perm.swap _ _ _)
+      rcases perm_two h2.cons_inv with ⟨rfl, rfl⟩ | ⟨rfl, rfl⟩ <;> simp
+    · have h2 : [x, y, z].Perm [x, a, b] :=
+        h.trans (((List.Perm.swap _ _ _).cons a).trans (List.Perm.swap _ _ _))
+      rcases perm_two h2.cons_inv with ⟨rfl, rfl⟩ | ⟨rfl, rfl⟩ <;> simp
+
+/-- the visitor loop on a document with exactly the three entries, in any order -/
+theorem visitLoop_of_perm (dec : JVal → Option α) (kvs : List (String × JVal)) (nc nr : Nat) (v : JVal) (data : List α)
+    (hk : kvs.Perm [("num_cols", JVal.num nc), ("num_rows", JVal.num nr), ("data", v)])
+    (hd : decVec dec v = some data) (hc : nc < WORD) (hr : nr < WORD) :
+    visitLoop dec kvs none none none = some (some nc, some nr, some data) := by
+  have e1 : ¬ ("num_rows" = "num_cols") := by decide
+  have e2 : ¬ ("data" = "num_cols") := by decide
+  have e3 : ¬ ("data" = "num_rows") := by decide
+  rcases perm_three kvs hk with h | h | h | h | h | h <;> subst h <;>
+    simp [visitLoop, decUsize_num hc, decUsize_num hr, hd, e1, e2, e3]
+
 end Toodee
